@@ -83,7 +83,14 @@ func (f *Frame) lockOp(mu ssa.Value, lock bool, reach string, st *State, pos tok
 			if nt == nil {
 				f.bail("guards %s: no type %s", gd.Key, fname[1:])
 			}
-			tmods = append(tmods, fmt.Sprintf("type:%d", f.eng.typeID(nt)))
+			// objects the function allocated since it last released this lock (or since entry) have
+			// not been shared yet and are kept
+			since := st.heaps[sinceUnlockKey]
+			if since == "" {
+				since = f.top.alloc0
+			}
+			f.eng.note("objects of lock-protected types allocated by a function since it last released the lock (or since entry) are assumed not yet shared when it next takes the lock")
+			tmods = append(tmods, fmt.Sprintf("type:%d:%s", f.eng.typeID(nt), since))
 		}
 		if len(tmods) > 0 {
 			for name := range ghostHeaps {
@@ -176,6 +183,7 @@ func (f *Frame) lockOp(mu ssa.Value, lock bool, reach string, st *State, pos tok
 	nh := f.ctx.Fresh("held", heapSort(hh))
 	f.ctx.Fact(fmt.Sprintf("(= %s (store %s %s false))", nh, h, owner))
 	st.heaps[hh] = nh
+	st.heaps[sinceUnlockKey] = st.alloc
 }
 
 func (f *Frame) lockEnv(gd *GuardDecl, owner string, elemT types.Type, st, old *State) *SpecEnv {
